@@ -423,4 +423,435 @@ Section Den2.
     apply (filter_den val (fun a prev => PNoRepeats a prev) (fun prev rv => py_eq rv prev || py_eq rv (VInt MAXSIZE)) (fun _ rv => rv)
              (fun F a prev => step_norepeats_eq F a prev) f c l Hc (VInt MAXSIZE)).
   Qed.
+
+  (* ---------------------------------------------------------------------------------------------- *)
+  (** * PPadToMultiple(p, multiple, minimum_pad): at least minimum_pad rests, then rests until the length is divisible *)
+
+  Lemma py_eq_int a b : py_eq (VInt a) (VInt b) = (a =? b).
+  Proof.
+    cbn. unfold Qeq_bool. cbn. rewrite !Z.mul_1_r. unfold Zeq_bool. rewrite Z.eqb_compare. destruct (a ?= b); reflexivity.
+  Qed.
+
+  Lemma padding_spec L m mp : (1 <= m)%nat ->
+    let P := padding L m mp in
+    (mp <= P)%nat /\ ((L + P) mod m = 0)%nat /\ (forall k, (mp <= k < P)%nat -> ((L + k) mod m <> 0)%nat).
+  Proof.
+    intros Hm. unfold padding. cbv zeta.
+    set (x := (L + mp)%nat). set (r := ((x + m - 1) mod m)%nat).
+    assert (Hr : (r < m)%nat) by (apply Nat.mod_upper_bound; lia).
+    pose proof (Nat.div_mod_eq (x + m - 1) m) as D. fold r in D. set (q := ((x + m - 1) / m)%nat) in D.
+    split; [lia|]. split.
+    - replace (L + (mp + (m - 1 - r)))%nat with (q * m)%nat by lia. apply Nat.mod_mul. lia.
+    - intros k Hk E.
+      assert (Hq : (1 <= q)%nat) by (destruct q; [lia | lia]).
+      assert (Ek : (L + k = (q - 1) * m + (m - (mp + (m - 1 - r) - k)))%nat) by nia.
+      rewrite Ek, Nat.add_comm, Nat.mod_add in E by lia. rewrite Nat.mod_small in E by lia. lia.
+  Qed.
+
+  Lemma step_padm_eq f pattern multiple minimum_pad count padcount :
+    step (S f) (PPadToMultiple pattern multiple minimum_pad count padcount) =
+      (let '(o, pattern') := anext f pattern in
+       match o with
+       | Stop =>
+           let st := PPadToMultiple pattern' multiple minimum_pad count padcount in
+           match obind (cmp OGe (VInt padcount) minimum_pad)
+                   (fun b => if b then omap (fun r => py_eq r (VInt 0)) (Val.binop OMod (VInt count) multiple) else Yield false) with
+           | Yield true => (Stop, st)
+           | Yield false => (Yield VNone, PPadToMultiple pattern' multiple minimum_pad (count + 1) (padcount + 1))
+           | oc => (ocast oc, st)
+           end
+       | Yield v => (Yield v, PPadToMultiple pattern' multiple minimum_pad (count + 1) padcount)
+       | _ => (o, PPadToMultiple pattern' multiple minimum_pad count padcount)
+       end).
+  Proof. reflexivity. Qed.
+
+  Theorem padm_den_fin f c l m mp : (1 <= m)%nat -> Den f c (Fin l) ->
+    Den (S (S f)) (PPadToMultiple (AP c) (VInt (Z.of_nat m)) (VInt (Z.of_nat mp)) 0 0) (Fin (ref_pad_to_multiple m mp l)).
+  Proof.
+    intros Hm Hc. set (L := List.length l). set (P := padding L m mp).
+    destruct (padding_spec L m mp Hm) as (Hp1 & Hp2 & Hp3). fold P in Hp1, Hp2, Hp3.
+    apply (Den_sim binop LMAX) with (R := fun j p =>
+      p = PPadToMultiple (AP (after f j c)) (VInt (Z.of_nat m)) (VInt (Z.of_nat mp))
+            (Z.of_nat (Nat.min j (L + P))) (Z.of_nat (Nat.min j (L + P) - L))).
+    - reflexivity.
+    - intros j p ->. rewrite step_padm_eq, (Den_anext_ge f f c (Fin l) j Hc (le_n _)).
+      unfold ref_pad_to_multiple. fold L P.
+      destruct (Nat.lt_ge_cases j L) as [Hj|Hj].
+      + (* the input still has values *)
+        destruct (at_fin_lt l j Hj) as (v & Hv & Ea). rewrite Ea. cbn [fst snd at_].
+        rewrite nth_error_app1 by exact Hj. rewrite Hv. split; [reflexivity|].
+        rewrite (Nat.min_l j), (Nat.min_l (S j)) by lia. f_equal; lia.
+      + rewrite (at_fin_ge l j Hj). rewrite cmp_ge_int.
+        destruct (Nat.lt_ge_cases j (L + P)) as [Hj2|Hj2].
+        * (* padding *)
+          rewrite (Nat.min_l j), (Nat.min_l (S j)) by lia.
+          assert (Hat : at_ (Fin (l ++ repeat VNone P)) j = Yield VNone).
+          { cbn [at_]. rewrite nth_error_app2 by exact Hj. rewrite nth_error_repeat' by (fold L; lia). reflexivity. }
+          rewrite Hat.
+          destruct (Z.of_nat mp <=? Z.of_nat (j - L)) eqn:E1; cbn [obind].
+          -- rewrite binop_mod_int by lia. cbn [omap obind]. rewrite py_eq_int.
+             assert (Hne : ((L + (j - L)) mod m <> 0)%nat) by (apply Hp3; lia).
+             replace (L + (j - L))%nat with j in Hne by lia.
+             rewrite <- Nat2Z.inj_mod. destruct (Z.of_nat (j mod m) =? 0) eqn:E2; [lia|].
+             cbn [fst snd]. split; [reflexivity|]. f_equal; lia.
+          -- cbn [fst snd]. split; [reflexivity|]. f_equal; lia.
+        * (* the end *)
+          rewrite (Nat.min_r j), (Nat.min_r (S j)) by lia.
+          assert (Hat : at_ (Fin (l ++ repeat VNone P)) j = Stop).
+          { apply at_fin_ge. rewrite app_length, repeat_length. fold L. lia. }
+          rewrite Hat. replace (L + P - L)%nat with P by lia.
+          destruct (Z.of_nat mp <=? Z.of_nat P) eqn:E1; [|lia]. cbn [obind].
+          rewrite binop_mod_int by lia. cbn [omap obind]. rewrite py_eq_int, <- Nat2Z.inj_mod, Hp2.
+          cbn [Z.of_nat Z.eqb fst snd]. split; reflexivity.
+  Qed.
+
+  (* an endless input is never padded *)
+  Theorem padm_den_inf f c g m mp : Den f c (Inf g) ->
+    Den (S (S f)) (PPadToMultiple (AP c) (VInt (Z.of_nat m)) (VInt (Z.of_nat mp)) 0 0) (Inf g).
+  Proof.
+    intros Hc.
+    apply (Den_sim binop LMAX) with (R := fun j p =>
+      p = PPadToMultiple (AP (after f j c)) (VInt (Z.of_nat m)) (VInt (Z.of_nat mp)) (Z.of_nat j) 0); [reflexivity|].
+    intros j p ->. rewrite step_padm_eq, (Den_anext_ge f f c (Inf g) j Hc (le_n _)). cbn [at_ fst snd].
+    split; [reflexivity|]. f_equal. lia.
+  Qed.
+
+  Theorem padm_den f c s m mp : (1 <= m)%nat -> Den f c s ->
+    Den (S (S f)) (PPadToMultiple (AP c) (VInt (Z.of_nat m)) (VInt (Z.of_nat mp)) 0 0) (sem_pad_to_multiple m mp s).
+  Proof. intros Hm Hc. destruct s as [l|g]; [apply padm_den_fin | apply padm_den_inf]; assumption. Qed.
+
+  (* ---------------------------------------------------------------------------------------------- *)
+  (** * PLoop(p, count), count >= 1: the values of p, count times (p is read once, while it is played) *)
+
+  Lemma step_loop_eq f pattern count pos loop_index read_all values :
+    step (S f) (PLoop pattern count pos loop_index read_all values) =
+      (let '(err, pattern1, read_all1, values1) :=
+         if read_all then (None, pattern, true, values)
+         else
+           let '(o, pattern') := anext f pattern in
+           match o with
+           | Yield v => (None, pattern', false, values ++ [v])
+           | Stop => (None, pattern', true, values)
+           | _ => (Some o, pattern', false, values)
+           end in
+       match err with
+       | Some o => (o, PLoop pattern1 count pos loop_index read_all1 values1)
+       | None =>
+           let wrap := read_all1 && (pos >=? zlen values1) in
+           let st0 := PLoop pattern1 count pos loop_index read_all1 values1 in
+           let go (pos2 loop_index2 : Z) :=
+             match py_index values1 pos2 with
+             | Some v => (Yield v, PLoop pattern1 count (pos2 + 1) loop_index2 read_all1 values1)
+             | None => (Raise IndexError, PLoop pattern1 count pos2 loop_index2 read_all1 values1)
+             end in
+           if wrap then
+             match obind (Val.binop OSub count (VInt 1)) (fun c1 => cmp OGe (VInt loop_index) c1) with
+             | Yield true => (Stop, st0)
+             | Yield false => if zlen values1 =? 0 then (Stop, st0) else go 0 (loop_index + 1)
+             | oc => (ocast oc, st0)
+             end
+           else go pos loop_index
+       end).
+  Proof. reflexivity. Qed.
+
+  Lemma firstn_snoc_nth {A} (l : list A) j v : nth_error l j = Some v -> firstn j l ++ [v] = firstn (S j) l.
+  Proof.
+    revert j. induction l as [|x l IH]; intros j H; [destruct j; discriminate|].
+    destruct j as [|j]; cbn in *; [inversion H; reflexivity | f_equal; apply IH; exact H].
+  Qed.
+
+  Lemma divmod_small q i L : (i < L)%nat -> ((q * L + i) mod L = i /\ (q * L + i) / L = q)%nat.
+  Proof.
+    intro H. rewrite Nat.add_comm. rewrite Nat.mod_add, Nat.div_add by lia.
+    rewrite Nat.mod_small, Nat.div_small by lia. split; lia.
+  Qed.
+
+  Theorem loop_den_fin f c l count : (1 <= count)%nat -> Den f c (Fin l) ->
+    Den (S (S f)) (PLoop (AP c) (VInt (Z.of_nat count)) 0 0 false []) (Fin (ref_loop count l)).
+  Proof.
+    intros Hcount Hc. set (L := List.length l). set (C := VInt (Z.of_nat count)).
+    assert (Hlen : List.length (ref_loop count l) = (count * L)%nat) by (unfold ref_loop; apply repeat_list_length).
+    apply (Den_sim binop LMAX) with (R := fun j p =>
+      ((j <= L)%nat /\ p = PLoop (AP (after f j c)) C (Z.of_nat j) 0 false (firstn j l)) \/
+      ((L < j)%nat /\
+       let t := (Nat.min j (count * L) - 1)%nat in
+       (L = O -> p = PLoop (AP (after f 1 c)) C 0 0 true []) /\
+       ((0 < L)%nat -> p = PLoop (AP (after f (S L) c)) C (Z.of_nat (t mod L) + 1) (Z.of_nat (t / L)) true l))).
+    - left. split; [lia | reflexivity].
+    - intros j p [[Hj ->] | [Hj Hp]].
+      + (* first pass: the input is read while it is played *)
+        rewrite step_loop_eq, (Den_anext_ge f f c (Fin l) j Hc (le_n _)).
+        destruct (Nat.lt_ge_cases j L) as [Hj2|Hj2].
+        * destruct (at_fin_lt l j Hj2) as (v & Hv & Ea). rewrite Ea.
+          cbv beta iota zeta. rewrite (firstn_snoc_nth l j v Hv). cbn [andb].
+          rewrite py_index_nat by (rewrite firstn_length; fold L; lia).
+          assert (Hn : nth_error (firstn (S j) l) j = Some v).
+          { rewrite <- (firstn_snoc_nth l j v Hv). rewrite nth_error_app2 by (rewrite firstn_length; fold L; lia).
+            rewrite firstn_length. fold L. replace (j - Nat.min j L)%nat with O by lia. reflexivity. }
+          rewrite Hn. cbn [fst snd].
+          assert (Hat : at_ (Fin (ref_loop count l)) j = Yield v).
+          { cbn [at_]. unfold ref_loop. replace j with (0 * List.length l + j)%nat by lia.
+            rewrite nth_error_repeat_list by (fold L; lia). rewrite Hv. reflexivity. }
+          rewrite Hat. split; [reflexivity|]. left. split; [lia|]. f_equal. lia.
+        * assert (j = L) by lia. subst j. rewrite (at_fin_ge l L (le_n _)).
+          cbv beta iota zeta. replace (firstn L l) with l by (symmetry; apply firstn_all).
+          unfold zlen. fold L. replace (Z.of_nat L >=? Z.of_nat L) with true by (symmetry; apply Z.geb_le; lia). cbn [andb].
+          unfold C. rewrite binop_sub_int. cbn [obind]. rewrite cmp_ge_int.
+          destruct (Z.of_nat count - 1 <=? 0) eqn:E1.
+          -- (* count = 1 *)
+             assert (count = 1%nat) by lia. subst count.
+             assert (Hat : at_ (Fin (ref_loop 1 l)) L = Stop) by (apply at_fin_ge; rewrite Hlen; lia).
+             rewrite Hat. cbn [fst snd]. split; [reflexivity|]. right. split; [lia|]. cbv zeta. split.
+             ++ intros E0. rewrite E0. cbn [Z.of_nat]. destruct l; [reflexivity | cbn in L; lia].
+             ++ intros HL. replace (Nat.min (S L) (1 * L) - 1)%nat with (L - 1)%nat by lia.
+                rewrite Nat.mod_small, Nat.div_small by lia. fold C. f_equal. lia.
+          -- destruct (Z.of_nat L =? 0) eqn:E0.
+             ++ assert (HL : L = O) by lia.
+                assert (Hat : at_ (Fin (ref_loop count l)) L = Stop) by (apply at_fin_ge; rewrite Hlen; lia).
+                rewrite Hat. cbn [fst snd]. split; [reflexivity|]. right. split; [lia|]. cbv zeta. split; [|lia].
+                intros _. rewrite HL. destruct l; [reflexivity | cbn in L; lia].
+             ++ assert (HL : (0 < L)%nat) by lia. change 0 with (Z.of_nat 0). rewrite py_index_nat by (fold L; lia).
+                destruct (nth_error l 0) as [v|] eqn:Hv; [|apply nth_error_None in Hv; fold L in Hv; lia].
+                assert (Hat : at_ (Fin (ref_loop count l)) L = Yield v).
+                { cbn [at_]. unfold ref_loop. replace L with (1 * List.length l + 0)%nat at 1 by (fold L; lia).
+                  rewrite nth_error_repeat_list by (fold L; lia). rewrite Hv. reflexivity. }
+                rewrite Hat. cbn [fst snd]. split; [reflexivity|]. right. split; [lia|]. cbv zeta. split; [lia|]. intros _.
+                replace (Nat.min (S L) (count * L) - 1)%nat with (1 * L + 0)%nat by nia.
+                destruct (divmod_small 1 0 L HL) as [-> ->]. fold C. f_equal.
+      + (* the stored values are replayed *)
+        cbv zeta in Hp. destruct Hp as [Hp0 HpL]. destruct (Nat.eq_dec L 0) as [HL|HL].
+        * rewrite (Hp0 HL). rewrite step_loop_eq. cbv beta iota zeta. cbn [andb zlen List.length Z.of_nat Z.geb Z.compare].
+          unfold C. rewrite binop_sub_int. cbn [obind]. rewrite cmp_ge_int.
+          assert (Hat : at_ (Fin (ref_loop count l)) j = Stop) by (apply at_fin_ge; rewrite Hlen; nia).
+          rewrite Hat. destruct (Z.of_nat count - 1 <=? 0); cbn [Z.eqb fst snd]; (split; [reflexivity|]); right;
+            (split; [lia|]); cbv zeta; (split; [intros _; reflexivity | lia]).
+        * assert (HL0 : (0 < L)%nat) by lia. rewrite (HpL HL0). clear Hp0 HpL.
+          set (t := (Nat.min j (count * L) - 1)%nat). set (i := (t mod L)%nat). set (q := (t / L)%nat).
+          assert (Hi : (i < L)%nat) by (apply Nat.mod_upper_bound; lia).
+          assert (Dt : t = (q * L + i)%nat) by (unfold q, i; rewrite Nat.mul_comm; apply Nat.div_mod_eq).
+          assert (Hq : (q < count)%nat).
+          { unfold q. apply Nat.div_lt_upper_bound; [lia|]. unfold t. nia. }
+          rewrite step_loop_eq. cbv beta iota zeta. unfold zlen. fold L. cbn [andb].
+          destruct (Z.of_nat i + 1 >=? Z.of_nat L) eqn:Ew.
+          -- (* the end of a pass *)
+             assert (Ei : S i = L) by lia.
+             unfold C. rewrite binop_sub_int. cbn [obind]. rewrite cmp_ge_int.
+             destruct (Z.of_nat count - 1 <=? Z.of_nat q) eqn:E1.
+             ++ (* the last pass: ended *)
+                assert (Hj2 : (count * L <= j)%nat) by (unfold t in Dt; nia).
+                assert (Hat : at_ (Fin (ref_loop count l)) j = Stop) by (apply at_fin_ge; rewrite Hlen; lia).
+                rewrite Hat. cbn [fst snd]. split; [reflexivity|]. right. split; [lia|]. cbv zeta. split; [lia|]. intros _.
+                replace (Nat.min (S j) (count * L)) with (Nat.min j (count * L)) by lia. fold t i q. reflexivity.
+             ++ assert (Hj2 : j = (S q * L)%nat) by (unfold t in Dt; nia).
+                destruct (Z.of_nat L =? 0) eqn:E0; [lia|]. change 0 with (Z.of_nat 0). rewrite py_index_nat by (fold L; lia).
+                destruct (nth_error l 0) as [v|] eqn:Hv; [|apply nth_error_None in Hv; fold L in Hv; lia].
+                assert (Hat : at_ (Fin (ref_loop count l)) j = Yield v).
+                { cbn [at_]. unfold ref_loop. rewrite Hj2. replace (S q * L)%nat with (S q * List.length l + 0)%nat by (fold L; lia).
+                  rewrite nth_error_repeat_list by (fold L; lia). rewrite Hv. reflexivity. }
+                rewrite Hat. cbn [fst snd]. split; [reflexivity|]. right. split; [lia|]. cbv zeta. split; [lia|]. intros _.
+                replace (Nat.min (S j) (count * L) - 1)%nat with (S q * L + 0)%nat by nia.
+                destruct (divmod_small (S q) 0 L HL0) as [-> ->]. fold C. f_equal; lia.
+          -- (* inside a pass *)
+             assert (Ei : (S i < L)%nat) by lia.
+             replace (Z.of_nat i + 1) with (Z.of_nat (S i)) by lia. rewrite py_index_nat by (fold L; lia).
+             destruct (nth_error l (S i)) as [v|] eqn:Hv; [|apply nth_error_None in Hv; fold L in Hv; lia].
+             assert (Hj2 : j = (q * L + S i)%nat) by (unfold t in Dt; nia).
+             assert (Hat : at_ (Fin (ref_loop count l)) j = Yield v).
+             { cbn [at_]. unfold ref_loop. rewrite Hj2. unfold L.
+               rewrite nth_error_repeat_list by (fold L; lia). rewrite Hv. reflexivity. }
+             rewrite Hat. cbn [fst snd]. split; [reflexivity|]. right. split; [lia|]. cbv zeta. split; [lia|]. intros _.
+             replace (Nat.min (S j) (count * L) - 1)%nat with (q * L + S i)%nat by nia.
+             destruct (divmod_small q (S i) L Ei) as [-> ->]. fold C. f_equal; lia.
+  Qed.
+
+  (* an endless input is played as it is (and remembered) *)
+  Theorem loop_den_inf f c g count : Den f c (Inf g) ->
+    Den (S (S f)) (PLoop (AP c) (VInt count) 0 0 false []) (Inf g).
+  Proof.
+    intros Hc.
+    apply (Den_sim binop LMAX) with (R := fun j p =>
+      p = PLoop (AP (after f j c)) (VInt count) (Z.of_nat j) 0 false (gprefix g j)); [reflexivity|].
+    intros j p ->. rewrite step_loop_eq, (Den_anext_ge f f c (Inf g) j Hc (le_n _)). cbn [at_].
+    cbv beta iota zeta. cbn [andb].
+    assert (Ep : gprefix g j ++ [g j] = gprefix g (S j)) by (unfold gprefix; rewrite seq_S, map_app; reflexivity).
+    rewrite Ep. assert (Hlen : List.length (gprefix g (S j)) = S j) by (unfold gprefix; rewrite map_length, seq_length; reflexivity).
+    rewrite py_index_nat by lia. rewrite nth_error_prefix. destruct (j <? S j)%nat eqn:E; [|apply Nat.ltb_ge in E; lia].
+    cbn [fst snd]. split; [reflexivity|]. f_equal. lia.
+  Qed.
+
+  Theorem loop_den f c s count : (1 <= count)%nat -> Den f c s ->
+    Den (S (S f)) (PLoop (AP c) (VInt (Z.of_nat count)) 0 0 false []) (sem_loop count s).
+  Proof. intros H Hc. destruct s as [l|g]; [apply loop_den_fin | apply loop_den_inf]; assumption. Qed.
+
+  (* ---------------------------------------------------------------------------------------------- *)
+  (** * PSubsequence(p, offset, length): length values of p starting at index offset (p finite or endless) *)
+
+  (* the first m values of a denotation *)
+  Definition pre (s : sem) (m : nat) : list val := match s with Fin l => firstn m l | Inf g => gprefix g m end.
+  Definition good (s : sem) (m : nat) : Prop := forall i, (i < m)%nat -> exists v, at_ s i = Yield v.
+
+  Lemma nth_error_firstn_lt {A} (l : list A) : forall m i, (i < m)%nat -> nth_error (firstn m l) i = nth_error l i.
+  Proof.
+    induction l as [|x l IH]; intros m i H; [destruct m, i; reflexivity|].
+    destruct m as [|m]; [lia|]. destruct i as [|i]; [reflexivity|]. cbn. apply IH. lia.
+  Qed.
+
+  Lemma nth_error_skipn' {A} (l : list A) : forall n i, nth_error (skipn n l) i = nth_error l (n + i).
+  Proof.
+    induction l as [|x l IH]; intros n i; [destruct n, i; reflexivity|].
+    destruct n as [|n]; [reflexivity|]. cbn. apply IH.
+  Qed.
+
+  Lemma pre_nth s m i : (i < m)%nat -> nth_error (pre s m) i = match at_ s i with Yield v => Some v | _ => None end.
+  Proof.
+    intro H. destruct s as [l|g]; cbn [pre at_].
+    - rewrite nth_error_firstn_lt by exact H. destruct (nth_error l i); reflexivity.
+    - rewrite nth_error_prefix. destruct (i <? m)%nat eqn:E; [reflexivity | apply Nat.ltb_ge in E; lia].
+  Qed.
+  Lemma pre_length s m : good s m -> List.length (pre s m) = m.
+  Proof.
+    intro H. destruct s as [l|g]; cbn [pre].
+    - rewrite firstn_length. destruct m as [|m]; [reflexivity|]. destruct (H m ltac:(lia)) as [v E]. cbn [at_] in E.
+      destruct (nth_error l m) eqn:E2; [|discriminate]. assert (m < List.length l)%nat by (apply nth_error_Some; congruence). lia.
+    - unfold gprefix. rewrite map_length, seq_length. reflexivity.
+  Qed.
+  Lemma pre_snoc s m v : at_ s m = Yield v -> pre s m ++ [v] = pre s (S m).
+  Proof.
+    intro H. destruct s as [l|g]; cbn [pre at_] in *.
+    - apply firstn_snoc_nth. destruct (nth_error l m); inversion H; reflexivity.
+    - inversion H. unfold gprefix. rewrite seq_S, map_app. reflexivity.
+  Qed.
+  Lemma good_S s m v : good s m -> at_ s m = Yield v -> good s (S m).
+  Proof. intros H E i Hi. destruct (Nat.eq_dec i m) as [->|]; [eexists; exact E | apply H; lia]. Qed.
+
+  Lemma at_subsequence off n s j : at_ (sem_subsequence off n s) j = if (j <? n)%nat then at_ s (off + j) else Stop.
+  Proof.
+    destruct s as [l|g]; cbn [sem_subsequence at_]; unfold ref_subsequence.
+    - destruct (j <? n)%nat eqn:E.
+      + apply Nat.ltb_lt in E. rewrite nth_error_firstn_lt by exact E. rewrite nth_error_skipn'. reflexivity.
+      + apply Nat.ltb_ge in E. assert (H : nth_error (firstn n (skipn off l)) j = None).
+        { apply nth_error_None. rewrite firstn_length. lia. }
+        rewrite H. reflexivity.
+    - rewrite nth_error_map. destruct (j <? n)%nat eqn:E.
+      + apply Nat.ltb_lt in E. rewrite nth_error_seq' by exact E. reflexivity.
+      + apply Nat.ltb_ge in E. assert (H : nth_error (seq 0 n) j = None) by (apply nth_error_None; rewrite seq_length; exact E).
+        rewrite H. reflexivity.
+  Qed.
+
+  Section Subseq.
+    Variables (f : nat) (c : pat) (s : sem).
+    Hypothesis Hc : Den f c s.
+
+    (* the values read so far and where the input stands *)
+    Definition sub_inv (m m' : nat) : Prop := good s m /\ (m <= m')%nat /\ (m' = m \/ at_ s m = Stop).
+
+    (* `while len(self.values) <= target: self.values.append(next(self.pattern))` *)
+    Lemma pull_spec F : (f <= F)%nat -> forall n m m' t, sub_inv m m' -> (t + 1 - m <= n)%nat ->
+      exists o m2 m2', pull_until (anext (S F)) n (AP (after f m' c)) (pre s m) (Z.of_nat t) = (o, pre s m2, AP (after f m2' c))
+        /\ sub_inv m2 m2' /\ (m <= m2)%nat
+        /\ (forall v, at_ s t = Yield v -> o = Yield tt /\ (t < m2)%nat)
+        /\ (at_ s t = Stop -> o = Stop).
+    Proof.
+      intros HF. induction n as [|n IH]; intros m m' t (Hg & Hm & Hst) Hn.
+      - cbn [pull_until]. rewrite (pre_length s m Hg). destruct (Z.of_nat m <=? Z.of_nat t) eqn:E; [lia|].
+        exists (Yield tt), m, m'. split; [reflexivity|]. split; [repeat split; assumption|]. split; [lia|]. split.
+        + intros v Ev. split; [reflexivity | lia].
+        + intros Es. exfalso. destruct (Hg t ltac:(lia)) as [v Ev]. congruence.
+      - cbn [pull_until]. rewrite (pre_length s m Hg). destruct (Z.of_nat m <=? Z.of_nat t) eqn:E.
+        + rewrite (Den_anext_ge f F c s m' Hc HF).
+          destruct Hst as [-> | Hst].
+          * destruct (at_cases s m) as [[v Ev]|Ev]; rewrite Ev.
+            -- rewrite (pre_snoc s m v Ev).
+               destruct (IH (S m) (S m) t ltac:(repeat split; [eapply good_S; eassumption | lia | left; reflexivity]) ltac:(lia))
+                 as (o & m2 & m2' & Ep & Hi & Hle & Hy & Hs).
+               exists o, m2, m2'. split; [exact Ep|]. split; [exact Hi|]. split; [lia|]. split; assumption.
+            -- exists Stop, m, (S m). split; [reflexivity|]. split; [repeat split; [assumption | lia | right; exact Ev]|].
+               split; [lia|]. split.
+               ++ intros v Et. exfalso. rewrite (at_stop_mono s m t ltac:(lia) Ev) in Et. discriminate.
+               ++ intros _. reflexivity.
+          * rewrite (at_stop_mono s m m' Hm Hst).
+            exists Stop, m, (S m'). split; [reflexivity|]. split; [repeat split; [assumption | lia | right; exact Hst]|].
+            split; [lia|]. split.
+            -- intros v Et. exfalso. rewrite (at_stop_mono s m t ltac:(lia) Hst) in Et. discriminate.
+            -- intros _. reflexivity.
+        + exists (Yield tt), m, m'. split; [reflexivity|]. split; [repeat split; assumption|]. split; [lia|]. split.
+          * intros v Ev. split; [reflexivity | lia].
+          * intros Es. exfalso. destruct (Hg t ltac:(lia)) as [v Ev]. congruence.
+    Qed.
+  End Subseq.
+
+  Lemma step_subsequence_eq f pattern offset length pos values :
+    step (S f) (PSubsequence pattern offset length pos values) =
+      (let '(oo, offset') := value f offset in
+       match oo with
+       | Yield voff =>
+           let '(ol, length') := value f length in
+           match ol with
+           | Yield vlen =>
+               let st := PSubsequence pattern offset' length' pos values in
+               match cmp OGe (VInt pos) vlen with
+               | Yield true => (Stop, st)
+               | Yield false =>
+                   match int_of voff with
+                   | Some off =>
+                       let '(ou, values', pattern') := pull_until (anext f) f pattern values (pos + off) in
+                       match ou with
+                       | Yield _ =>
+                           match py_index values' (off + pos) with
+                           | Some v => (Yield v, PSubsequence pattern' offset' length' (pos + 1) values')
+                           | None => (Raise IndexError, PSubsequence pattern' offset' length' pos values')
+                           end
+                       | _ => (ocast ou, PSubsequence pattern' offset' length' pos values')
+                       end
+                   | None => ((if is_none voff then Raise TypeError else Inexact), st)
+                   end
+               | oc => (ocast oc, st)
+               end
+           | _ => (ol, PSubsequence pattern offset' length' pos values)
+           end
+       | _ => (oo, PSubsequence pattern offset' length pos values)
+       end).
+  Proof. reflexivity. Qed.
+
+  Theorem subsequence_den f c s off n : Den f c s ->
+    Den (S (S (f + off))) (PSubsequence (AP c) (AV (VInt (Z.of_nat off))) (AV (VInt (Z.of_nat n))) 0 []) (sem_subsequence off n s).
+  Proof.
+    intros Hc.
+    apply (Den_sim binop LMAX) with (R := fun j p => exists pos m m',
+      p = PSubsequence (AP (after f m' c)) (AV (VInt (Z.of_nat off))) (AV (VInt (Z.of_nat n))) (Z.of_nat pos) (pre s m)
+      /\ sub_inv s m m' /\ (pos = O \/ off + pos <= m)%nat
+      /\ (pos = j \/ ((pos <= j)%nat /\ ((n <= pos)%nat \/ at_ s (off + pos) = Stop)))).
+    - exists O, O, O. split; [destruct s; reflexivity|]. split; [repeat split; [intros i Hi; lia | lia | left; reflexivity]|].
+      split; [left; reflexivity | left; reflexivity].
+    - intros j p (pos & m & m' & -> & Hinv & Hm & Hpos).
+      rewrite step_subsequence_eq. rewrite !(value_av binop LMAX).
+      rewrite cmp_ge_int, at_subsequence. cbn [int_of].
+      destruct (Z.of_nat n <=? Z.of_nat pos) eqn:En.
+      + (* the length has been reached *)
+        destruct Hpos as [-> | [Hle _]].
+        * destruct (j <? n)%nat eqn:E; [apply Nat.ltb_lt in E; lia|]. cbn [fst snd]. split; [reflexivity|].
+          exists j, m, m'. split; [reflexivity|]. split; [exact Hinv|]. split; [exact Hm|]. right. split; [lia | left; lia].
+        * destruct (j <? n)%nat eqn:E; [apply Nat.ltb_lt in E; lia|]. cbn [fst snd]. split; [reflexivity|].
+          exists pos, m, m'. split; [reflexivity|]. split; [exact Hinv|]. split; [exact Hm|]. right. split; [lia | left; lia].
+      + replace (Z.of_nat pos + Z.of_nat off) with (Z.of_nat (off + pos)) by lia.
+        destruct (pull_spec f c s Hc (f + off) ltac:(lia) (S (f + off)) m m' (off + pos) Hinv ltac:(lia))
+          as (o & m2 & m2' & Ep & Hi2 & Hle & Hy & Hs).
+        rewrite Ep.
+        destruct (at_cases s (off + pos)) as [[v Ev]|Ev].
+        * destruct (Hy v Ev) as [-> Hlt]. replace (Z.of_nat off + Z.of_nat pos) with (Z.of_nat (off + pos)) by lia.
+          rewrite py_index_nat by (rewrite (pre_length s m2) by apply Hi2; exact Hlt).
+          rewrite (pre_nth s m2 (off + pos) Hlt), Ev.
+          destruct Hpos as [-> | [Hle2 [Hn | Hst]]]; [| lia | congruence].
+          destruct (j <? n)%nat eqn:E; [|apply Nat.ltb_ge in E; lia]. rewrite Ev. cbn [fst snd]. split; [reflexivity|].
+          exists (S j), m2, m2'. split; [f_equal; lia|]. split; [exact Hi2|]. split; [right; lia | left; reflexivity].
+        * rewrite (Hs Ev). cbn [ocast obind fst snd].
+          assert (Hat : (if (j <? n)%nat then at_ s (off + j) else Stop) = Stop).
+          { destruct (j <? n)%nat; [|reflexivity]. apply (at_stop_mono s (off + pos)); [|exact Ev].
+            destruct Hpos as [-> | [Hle2 _]]; lia. }
+          rewrite Hat. split; [reflexivity|].
+          exists pos, m2, m2'. split; [reflexivity|]. split; [exact Hi2|].
+          split; [destruct Hm as [Hm|Hm]; [left; exact Hm | right; lia]|]. destruct Hpos as [-> | [Hle2 _]].
+          -- right. split; [lia | right; exact Ev].
+          -- right. split; [lia | right; exact Ev].
+  Qed.
 End Den2.
